@@ -91,10 +91,10 @@ class Report(object):
         for o, k in kf:
             print('KNOWN-FINDING: property=%s %s %s %s: %s' % (self.pid, o['rule'], o['function'], o['loc'], k.get('what', o['what'])))
         replay = None
-        if self.broken:
+        for m in self.broken:
+            print('ANALYSIS-BROKEN property=%s %s' % (self.pid, m))
+        if self.broken and not viol:
             status = 2
-            for m in self.broken:
-                print('ANALYSIS-BROKEN property=%s %s' % (self.pid, m))
         elif viol:
             status = 1
             replay = os.path.join(evidence_dir, 'replay', '%s.json' % self.pid)
